@@ -50,6 +50,39 @@ def haar(rng, n):
     return q * (np.diag(r) / np.abs(np.diag(r)))
 
 
+class FastDriverFails:
+    """fault injection: LAPACK's divide-and-conquer driver (gesdd) does not converge; robust_svd must fall back and still return a valid SVD"""
+
+    def __enter__(self):
+        import scipy.linalg
+
+        self.real = scipy.linalg.svd
+        self.hits = 0
+
+        def svd(a, *xa, **kw):
+            if kw.get("lapack_driver", "gesdd") == "gesdd":
+                self.hits += 1
+                raise np.linalg.LinAlgError("SVD did not converge (injected)")
+            return self.real(a, *xa, **kw)
+
+        scipy.linalg.svd = svd
+        return self
+
+    def __exit__(self, *e):
+        import scipy.linalg
+
+        scipy.linalg.svd = self.real
+        return False
+
+
+class NoFault:
+    def __enter__(self):
+        return self
+
+    def __exit__(self, *e):
+        return False
+
+
 def direct_split(args):
     """Returns a failure description or None."""
     import mqt.yaqs.core.methods.tdvp as T
@@ -76,7 +109,8 @@ def direct_split(args):
     outs = {}
     for dist in ("left", "right", "sqrt"):
         try:
-            a, b = T.split_mps_tensor(theta.copy(), dist, p, [d0, d1], dynamic=args["dyn"])
+            with (FastDriverFails() if args.get("gesdd_fails") else NoFault()):
+                a, b = T.split_mps_tensor(theta.copy(), dist, p, [d0, d1], dynamic=args["dyn"])
         except Exception as e:  # noqa: BLE001
             return f"split_mps_tensor raised {type(e).__name__}: {e}"
         keep = a.shape[2]
@@ -90,7 +124,7 @@ def direct_split(args):
     disc = float(np.sum(s[keep:] ** 2))
     err2 = float(np.linalg.norm(theta_mat - prod) ** 2)
     if abs(err2 - disc) > tol:
-        return f"|theta - A.B|^2 = {err2:.6e} but discarded weight is {disc:.6e}"
+        return f"|theta - A.B|^2 = {err2:.6e} but discarded weight is {disc:.6e}" + (" (fast SVD driver failing, fallback driver in use)" if args.get("gesdd_fails") else "")
     for dist in ("left", "sqrt"):
         if outs[dist][0] != keep or np.linalg.norm(outs[dist][1] - prod) > 1e-9 * np.sqrt(norm2) + 1e-12:
             return f"distribution {dist} gives a different product"
@@ -132,7 +166,8 @@ def direct_tss(args):
     b = ((s[:, None] * V).reshape(k, d, R)).transpose(1, 0, 2) + 0j
     theta = np.tensordot(a, b, axes=(2, 1)).reshape(m, n)
     try:
-        an, bn = D.two_site_svd(a, b, args["thr"], args["maxb"])
+        with (FastDriverFails() if args.get("gesdd_fails") else NoFault()):
+            an, bn = D.two_site_svd(a, b, args["thr"], args["maxb"])
     except Exception as e:  # noqa: BLE001
         return f"two_site_svd raised {type(e).__name__}: {e}"
     keep = an.shape[2]
@@ -217,6 +252,9 @@ def search(ctx):
         args = dict(seed=int(rng.integers(0, 2**31)), d0=d0, d1=d1, D0=D0, D2=D2, s=s, thr=thr,
                     minb=int(rng.choice([1, 2, 2, 3, 6, 12])), maxb=int(rng.choice([1, 2, 3, 4, 6, 64])),
                     mode=mode, dyn=bool(rng.random() < 0.5))
+        if i % 6 == 1:  # the fast LAPACK driver fails to converge: the fallback path, on tall, square and wide complex matrices
+            args["gesdd_fails"] = True
+            ctx.count("direct_split_fallback_driver")
         why = direct_split(args)
         cut = sum(1 for x in s if x > 0)
         ctx.case(nontrivial_key=("ds", i) if kind != "zero" else None,
@@ -261,6 +299,8 @@ def search(ctx):
             j = int(rng.integers(0, k - 1))
             args["thr"] = float(rng.choice([0.0, 1e-20, 1e-12, float(np.sqrt(cum[j] * cum[j + 1]))]))
             ctx.count("direct_two_site_svd_widerange")
+        if i % 7 == 3:
+            args["gesdd_fails"] = True
         why = direct_tss(args)
         ctx.case(nontrivial_key=("tss", i))
         ctx.count("direct_two_site_svd")
